@@ -456,6 +456,21 @@ Theorem template_fresh : forall t,
     wf t = true -> forallb push_plain (gen_sq (reify t)) = true.
 Proof. intros t H. apply forallb_forall. apply gen_pushes_only_atoms. assumption. Qed.
 
+(* ---------------------------------------------------------------- unquotes are never tail calls *)
+Theorem unquotes_not_tail : forall v tail b, In b (unq_tails tail v) -> b = false.
+Proof.
+  induction v as [z|z|z|z|l IH|l IH|tn kv IH] using value_ind'; intros tail b Hb;
+    try (simpl in Hb; contradiction).
+  - cbn [unq_tails] in Hb. destruct (unq_form l).
+    + destruct Hb as [<-|[]]. reflexivity.
+    + apply in_flat_map in Hb. destruct Hb as [x [Hx Hb]]. rewrite Forall_forall in IH. eapply IH; eauto.
+  - cbn [unq_tails] in Hb. apply in_flat_map in Hb. destruct Hb as [x [Hx Hb]].
+    rewrite Forall_forall in IH. eapply IH; eauto.
+  - cbn [unq_tails] in Hb. apply in_concat in Hb. destruct Hb as [c [Hc Hb]]. apply in_rev in Hc.
+    apply in_map_iff in Hc. destruct Hc as [p [<- Hp]]. rewrite Forall_forall in IH.
+    destruct (IH p Hp) as [IHk IHv]. apply in_app_or in Hb. destruct Hb; eauto.
+Qed.
+
 (* ---------------------------------------------------------------- the hash order defect *)
 Definition refute_rho : value -> option value := fun _ => Some (VList [VInt 1; VInt 2; VInt 3]).
 Definition refute_t : tmpl := THash 9 [(TLit (VSym 5), TSpl (VSym 6))].
